@@ -197,10 +197,16 @@ class History:
                 self.c.op("set_psk", pid, loc=n, key=self.keys.psks[n])
             self.missing[pid] = set()
 
+    def mode(self, pid):
+        """'tr' | 'sl' for a party; transport 'mixA' = A stateless / B stateful, 'mixB' the other way round"""
+        if self.transport in ("tr", "sl"):
+            return self.transport
+        return "sl" if (pid[0] == "A") == (self.transport == "mixA") else "tr"
+
     def convert(self):
         c = self.c
-        op = "to_transport" if self.transport == "tr" else "to_stateless"
         for pid in ("A", "B"):
+            op = "to_transport" if self.mode(pid) == "tr" else "to_stateless"
             l = c.op(op, pid)
             if self.twin:
                 self.pairs.append((l, c.op(op, pid + "2"), op))
@@ -209,9 +215,11 @@ class History:
         """stateful only, no twin: drive the sender to 2^64-1 through the hook; the writes that then fail must not
         have encrypted anything (each failing retry carries a different payload), nor may the rekey that follows"""
         c = self.c
-        if self.transport != "tr" or self.twin:
+        if self.twin:
             return
         w, r = ("A", "B") if (self.parsed.oneway or rnd.random() < 0.5) else ("B", "A")
+        if self.mode(w) != "tr" or self.mode(r) != "tr":
+            return
         c.op("set_tx_nonce", w, n=2**64 - 2)
         c.op("set_rx_nonce", r, n=2**64 - 2)
         c.op("t_write", w, pay="gen:9:last", buf=BIG, out="xlast")
@@ -223,23 +231,32 @@ class History:
         c.op("rekey_in", r)
         self._fault(c.op("t_write", w, pay="gen:7:after", buf=BIG), w, "t_write", "exhausted")
 
-    def transport_phase(self, rnd, nmsgs=4, fault_rate=0.5, rekeys=False):
+    def transport_phase(self, rnd, nmsgs=4, fault_rate=0.5, rekeys=False, manual=False, stray_setrx=False):
         c = self.c
         p = self.parsed
-        st = self.transport == "sl"
-        wop, rop = ("st_write", "st_read") if st else ("t_write", "t_read")
         cnt = [0, 0]
         for j in range(nmsgs * (1 if p.oneway else 2)):
             d = 0 if p.oneway else j % 2
             w, r = ("A", "B") if d == 0 else ("B", "A")
+            wop = "st_write" if self.mode(w) == "sl" else "t_write"
+            rop = "st_read" if self.mode(r) == "sl" else "t_read"
             ln = rnd.choice([0, 1, 16, 40, 300])
             pay = "gen:%d:tp%d.%d" % (ln, self.seed, j)
-            nn = {"n": cnt[d]} if st else {}
+            nn = {"n": cnt[d]} if self.mode(w) == "sl" else {}
+            rn_ = {"n": cnt[d]} if self.mode(r) == "sl" else {}
             if rekeys and rnd.random() < 0.3:
                 for pid, op in ((w, "rekey_out"), (r, "rekey_in")):
                     l = c.op(op, pid)
                     if self.twin:
                         self.pairs.append((l, c.op(op, pid + "2"), op))
+            if manual and not self.twin and rnd.random() < 0.25:
+                # both ends install the same fresh key for this direction through the combined call
+                key = gen_bytes("mk%d.%d" % (self.seed, j), 32).hex()
+                for pid in (w, r):
+                    c.op("rekey_manual", pid, i=key if d == 0 else "-", r=key if d == 1 else "-", flags=("sep",) if rnd.random() < 0.5 else ())
+            if stray_setrx and not self.twin and self.mode(w) == "tr" and rnd.random() < 0.3:
+                # a legal but pointless call on the SENDER: its own receiving counter (unused for a one-way initiator)
+                c.op("set_rx_nonce", w, n=rnd.choice([0, 1, cnt[d]]))
             if rnd.random() < fault_rate:
                 kind, arg = rnd.choice(T_WRITE_FAULTS)
                 if kind == "buf":
@@ -273,12 +290,12 @@ class History:
                     m = reg
                 if kind == "paybuf":
                     if ln >= 1:
-                        self._fault(c.op(rop, r, msg=m, buf=ln - 1, **nn), r, rop, "paybuf")
+                        self._fault(c.op(rop, r, msg=m, buf=ln - 1, **rn_), r, rop, "paybuf")
                 else:
-                    self._fault(c.op(rop, r, msg=m, buf=BIG, **nn), r, rop, kind)
-            lr = c.op(rop, r, msg="$t%d" % j, buf=BIG, **nn)
+                    self._fault(c.op(rop, r, msg=m, buf=BIG, **rn_), r, rop, kind)
+            lr = c.op(rop, r, msg="$t%d" % j, buf=BIG, **rn_)
             if self.twin:
-                self.pairs.append((lr, c.op(rop, r + "2", msg="$u%d" % j, buf=BIG, **nn), rop))
+                self.pairs.append((lr, c.op(rop, r + "2", msg="$u%d" % j, buf=BIG, **rn_), rop))
             cnt[d] += 1
 
     def done(self):
